@@ -34,7 +34,7 @@ EXTRA = ['pow3', 'norm', 'normalized', 'dual', 'exp', 'regnum', 'regsym', 'pow-2
 FORMS = BINARY + UNARY + EXTRA
 DIRECT = set(BINARY + UNARY + ['regnum', 'regsym', 'dual', 'regnum2'])
 TYPES = ['int', 'float', 'Fraction', 'complex', 'ndarray', 'listarr', 'sympy', 'mixed']
-PATTERNS = {'A': 'even', 'B': 'vector'}
+PATTERNS = {'A': 'even', 'B': 'vector', 'N': 'vector (keys written as blade names)'}
 
 
 class Probe:
@@ -144,6 +144,11 @@ def operand(w, pattern, kind, salt):
         keys = (c[0], c[1] ^ c[2], c[3] ^ c[4]) if pattern == 'A' else (c[1], c[2], c[3])
     else:
         keys = alg.indices_for_grades[(0, 2)] if pattern == 'A' else alg.indices_for_grades[(1,)]
+    if pattern == 'N':
+        # the vector pattern written with blade names (accepted wherever keys are accepted; fromkeysvalues keeps them as given)
+        from kingdon import MultiVector
+        keys = alg.indices_for_grades[(1,)]
+        return MultiVector.fromkeysvalues(alg, tuple(alg.bin2canon[k] for k in keys), values(kind, len(keys), salt))
     # a fresh tuple object per operand (like the results of real operations): the pattern, not the object, is the cache key
     return alg.multivector(keys=tuple(list(keys)), values=values(kind, len(keys), salt))
 
@@ -173,6 +178,16 @@ def do_call(w, form, pattern, kind, salt):
         return w['regsym'](x, y)
     if form == 'regnum2':
         return w['regnum2'](x, y)
+    if form.startswith('regnamed:'):
+        # a user expression that merely has the *name* of a built-in operator is registered (and called): the built-in
+        # operator of that name is another object and keeps everything it has generated
+        op = form.split(':')[1]
+        ns = {}
+        if op in BINARY:
+            exec(f'def {op}(a, b):\n    return (a ^ b) + b\n', ns)
+            return w['alg'].register(ns[op])(x, y)
+        exec(f'def {op}(a):\n    return a * a\n', ns)
+        return w['alg'].register(ns[op])(x)
     raise ValueError(form)
 
 
@@ -259,6 +274,13 @@ def histories(tier, algname):
     for (f, p) in calls:
         if f in DIRECT or f in ('pow3', 'norm'):
             out.append([(f, p, 'int'), (f, p, 'float@thread'), (f, p, 'Fraction')])
+    # key patterns written with blade names
+    for f in BINARY + UNARY:
+        out.append([(f, 'N', 'int'), (f, 'N', 'Fraction'), (f, 'N', 'float')])
+    # registering a user expression named like the operator between two calls of the operator
+    for (f, p) in calls:
+        if f in DIRECT:
+            out.append([(f, p, 'int'), ('regnamed:' + f, p, 'int'), (f, p, 'Fraction')])
     # a call with the same pattern whose values make the generated function raise at run time must not invalidate the cache
     for (f, p) in calls:
         if f in DIRECT:
